@@ -834,6 +834,9 @@ class ExprMixin:
     def module_attr(self, mod, attr, st=None):
         if mod in ("math", "np", "numpy") and attr == "pi" and st is not None:
             return SV(REAL, self.pi_const(st))
+        if mod in ("math", "np", "numpy") and attr == "e" and st is not None:
+            self.bi_math_exp([SV(REAL, z3.RealVal(1))], {}, st, True)      # brings in e_c == exp(1)
+            return SV(REAL, z3.Real("e_c"))
         return self._module_attr(mod, attr)
 
     def _module_attr(self, mod, attr):
